@@ -830,66 +830,7 @@ func sumLeaves(p *core.Prog, fn *core.Func, e ast.Expr, depth int) []types.Objec
 	}
 	info := fn.Pkg.TypesInfo
 	e = stripConvs(info, core.Unparen(e))
-	// the field F of the struct held by local x: x, err := helper(...) with `return T{F: v, ...}, nil`
-	fieldOf := func(x ast.Expr, field string) (*core.Func, ast.Expr) {
-		xo := core.ObjOf(info, x)
-		if xo == nil {
-			return nil, nil
-		}
-		var call *ast.CallExpr
-		idx := -1
-		ast.Inspect(fn.Root().Body, func(m ast.Node) bool {
-			if as, ok := m.(*ast.AssignStmt); ok && len(as.Rhs) == 1 {
-				for i, l := range as.Lhs {
-					if core.ObjOf(info, l) == xo {
-						if c, isCall := core.Unparen(as.Rhs[0]).(*ast.CallExpr); isCall {
-							call, idx = c, i
-						}
-					}
-				}
-			}
-			return true
-		})
-		if call == nil {
-			return nil, nil
-		}
-		fo := core.Callee(info, call)
-		if fo == nil {
-			return nil, nil
-		}
-		h := p.ByObj[fo.Origin()]
-		if h == nil || h.Body == nil {
-			return nil, nil
-		}
-		hg := p.Graph(h)
-		var val ast.Expr
-		n := 0
-		for _, rn := range hg.Returns() {
-			if definitelyErrorReturn(hg, h, rn) {
-				continue
-			}
-			res := returnResults(rn)
-			if idx >= len(res) {
-				return nil, nil
-			}
-			cl, ok := core.Unparen(res[idx]).(*ast.CompositeLit)
-			if !ok {
-				return nil, nil
-			}
-			for _, el := range cl.Elts {
-				if kv, isKV := el.(*ast.KeyValueExpr); isKV {
-					if id, isId := kv.Key.(*ast.Ident); isId && id.Name == field {
-						val = kv.Value
-						n++
-					}
-				}
-			}
-		}
-		if n != 1 {
-			return nil, nil
-		}
-		return h, val
-	}
+	fieldOf := func(x ast.Expr, field string) (*core.Func, ast.Expr) { return helperLiteralField(p, fn, x, field) }
 	switch x := e.(type) {
 	case *ast.BinaryExpr:
 		if x.Op != token.ADD {
@@ -963,4 +904,68 @@ func sumLeaves(p *core.Prog, fn *core.Func, e ast.Expr, depth int) []types.Objec
 		}
 	}
 	return nil
+}
+
+// helperLiteralField: the value given to field F of the struct held by the local x of fn, when x was assigned from a call of
+// a repository function all of whose non-error returns yield a keyed literal: x, err := helper(...) with
+// `return T{F: v, ...}, nil`. Returns the helper and v (an expression of the helper).
+func helperLiteralField(p *core.Prog, fn *core.Func, x ast.Expr, field string) (*core.Func, ast.Expr) {
+	info := fn.Pkg.TypesInfo
+	xo := core.ObjOf(info, x)
+	if xo == nil {
+		return nil, nil
+	}
+	var call *ast.CallExpr
+	idx := -1
+	ast.Inspect(fn.Root().Body, func(m ast.Node) bool {
+		if as, ok := m.(*ast.AssignStmt); ok && len(as.Rhs) == 1 {
+			for i, l := range as.Lhs {
+				if core.ObjOf(info, l) == xo {
+					if c, isCall := core.Unparen(as.Rhs[0]).(*ast.CallExpr); isCall {
+						call, idx = c, i
+					}
+				}
+			}
+		}
+		return true
+	})
+	if call == nil {
+		return nil, nil
+	}
+	fo := core.Callee(info, call)
+	if fo == nil {
+		return nil, nil
+	}
+	h := p.ByObj[fo.Origin()]
+	if h == nil || h.Body == nil {
+		return nil, nil
+	}
+	hg := p.Graph(h)
+	var val ast.Expr
+	n := 0
+	for _, rn := range hg.Returns() {
+		if definitelyErrorReturn(hg, h, rn) {
+			continue
+		}
+		res := returnResults(rn)
+		if idx >= len(res) {
+			return nil, nil
+		}
+		cl, ok := core.Unparen(res[idx]).(*ast.CompositeLit)
+		if !ok {
+			return nil, nil
+		}
+		for _, el := range cl.Elts {
+			if kv, isKV := el.(*ast.KeyValueExpr); isKV {
+				if id, isId := kv.Key.(*ast.Ident); isId && id.Name == field {
+					val = kv.Value
+					n++
+				}
+			}
+		}
+	}
+	if n != 1 {
+		return nil, nil
+	}
+	return h, val
 }
